@@ -66,6 +66,18 @@ def shards(tier, seed):
             out.append({"N": 20000, "sched": "vectorized_ltf", "win": "kaiser200", "backend": backend, "seed": seed, "tier": tier,
                         "case": {"N": 20000, "sched": "vectorized_ltf", "win": "kaiser200", "backend": backend, "order": 0, "olap": "default",
                                  "Jdes": 500, "Kdes": 100, "bmin": 1.0, "Lmin": 1, "mode": mode, "rx": "id1", "ry": "id3", "seed": seed, "light": True}})
+    # the same lattice with the sampling rate in other units (records sampled once a year / at tens of MHz)
+    for fs in (3e-8, 4e7):
+        for sch in SCHEDS:
+            for win in ("kaiser200", "hann"):
+                for backend in ("numba", "numpy"):
+                    out.append({"N": 24, "sched": sch, "win": win, "backend": backend, "seed": seed, "tier": tier, "fs": fs})
+    # records long enough for segment lengths beyond 2^16 and frequencies below 1e-5 fs (few bins: the reference is O(K L) per bin)
+    for sch, backend, mode, win in (("ltf", "numba", "cross", "kaiser200"), ("vectorized_ltf", "numba", "auto", "hann"),
+                                    ("lpsd", "numpy", "cross", "hann"), ("new_ltf", "numba", "cross", "hann")):
+        out.append({"N": 140000, "sched": sch, "win": win, "backend": backend, "seed": seed, "tier": tier,
+                    "case": {"N": 140000, "sched": sch, "win": win, "backend": backend, "order": 0, "olap": 0.5, "Jdes": 8,
+                             "Kdes": 2, "bmin": 1.0, "Lmin": 1, "mode": mode, "rx": "id1", "ry": "id3", "seed": seed, "light": True}})
     out.sort(key=lambda s: -s["N"] * (30 if s["backend"] == "cuda" else 1))
     return pairhist.shards_for(PROPERTY) + out
 
@@ -104,6 +116,8 @@ def run_shard(shard):
             orders, olaps, jk, bmins, lmins, ("auto", "cross"), recs):
         case = {"N": N, "sched": sch, "win": win, "backend": backend, "order": order, "olap": olap, "Jdes": J,
                 "Kdes": K, "bmin": bmin, "Lmin": Lmin, "mode": mode, "rx": rx, "ry": ry, "seed": seed}
+        if "fs" in shard:
+            case["fs"] = shard["fs"]
         # single-bin requests for every bin and all band pairs on every 8th lattice point; single-bin requests for the first and last bin on every other 8th
         slot = (idx + idx // 8 + idx // 64) % 8   # diagonal through the lattice: every mode/record/Lmin/bmin combination gets its turn
         r = _one(case, full=(slot == 0) and not cuda, light_single=cuda or (slot == 4))
@@ -176,7 +190,7 @@ def _mk(case, tag, msg):
 def _one(case, full=True, light_single=False):
     ana.quiet()
     N, order, mode = case["N"], case["order"], case["mode"]
-    fs = 2.0
+    fs = float(case.get("fs", 2.0))
     x, y = ana.data_for(mode, N, case["rx"], case["ry"], case["seed"])
     wkw, wref = ana.win_spec(case["win"])
     kw = dict(olap=case["olap"], bmin=case["bmin"], Lmin=case["Lmin"], Jdes=case["Jdes"], Kdes=case["Kdes"],
@@ -243,7 +257,7 @@ def _one(case, full=True, light_single=False):
                         sb = an.compute_single_bin(fj, fres=fr)
                     else:
                         # a frequency between the plan's bins, a length that is not in the plan
-                        fj = float(pf["f"][j]) * 1.013 + 1e-3
+                        fj = float(pf["f"][j]) * 1.013 + 5e-4 * fs
                         Lreq = max(1, min(N, int(pf["L"][j]) - 1 if int(pf["L"][j]) > 1 else 2))
                         sb = an.compute_single_bin(fj, L=Lreq)
                 except Exception as e:  # noqa: BLE001
